@@ -212,7 +212,11 @@ func (fc *fnCtx) classAssume(v *val, t types.Type, guard string) {
 			g.assume(fmt.Sprintf("(not (HASBYTES %d))", id))
 		}
 		g.declFun("ISMAP", "(Int) Bool")
-		f := fmt.Sprintf("(or (= %s 0) (and (= (CLS %s) %d) (ISMAP (CLS %s))))", v.t[0], v.t[0], id, v.t[0])
+		if mk := fmt.Sprintf("ismap:%d", id); !g.specDefs[mk] {
+			g.specDefs[mk] = true
+			g.assume(fmt.Sprintf("(ISMAP %d)", id))
+		}
+		f := fmt.Sprintf("(or (= %s 0) (= (CLS %s) %d))", v.t[0], v.t[0], id)
 		if guard != "" && guard != "true" {
 			f = fmt.Sprintf("(=> %s %s)", guard, f)
 		}
@@ -220,21 +224,6 @@ func (fc *fnCtx) classAssume(v *val, t types.Type, guard string) {
 	case kPtr, kSlice:
 		et := elemTypeOfRef(t)
 		if et == nil {
-			return
-		}
-		if g.ufDecl["ISMAP"] && guard != "#skip" {
-			// pointers and slices never designate map objects (whatever their element type)
-			f := fmt.Sprintf("(or (= %s 0) (not (ISMAP (CLS %s))))", v.t[0], v.t[0])
-			if guard != "" && guard != "true" {
-				f = fmt.Sprintf("(=> %s %s)", guard, f)
-			}
-			g.declFun("CLS", "(Int) Int")
-			g.assume(f)
-		}
-		if _, isIface := et.Underlying().(*types.Interface); isIface && false {
-			return
-		}
-		if guard == "#skip" {
 			return
 		}
 		if w, _, isInt := intW(et); isInt && w == 8 {
@@ -254,11 +243,24 @@ func (fc *fnCtx) classAssume(v *val, t types.Type, guard string) {
 		}
 		ids := g.w.classes.rootIDs(et)
 		if ids == nil {
+			if g.ufDecl["ISMAP"] {
+				// a reference of unconstrained class still never designates a map object
+				g.declFun("CLS", "(Int) Int")
+				f := fmt.Sprintf("(or (= %s 0) (not (ISMAP (CLS %s))))", v.t[0], v.t[0])
+				if guard != "" && guard != "true" {
+					f = fmt.Sprintf("(=> %s %s)", guard, f)
+				}
+				g.assume(f)
+			}
 			return
 		}
 		g.declFun("CLS", "(Int) Int")
 		g.declFun("HASBYTES", "(Int) Bool")
 		for _, id := range ids {
+			if mk := fmt.Sprintf("ismap:%d", id); g.ufDecl["ISMAP"] && !g.specDefs[mk] {
+				g.specDefs[mk] = true
+				g.assume(fmt.Sprintf("(not (ISMAP %d))", id)) // struct / slice-element classes are not map classes
+			}
 			key := fmt.Sprintf("hasbytes:%d", id)
 			if !g.specDefs[key] {
 				g.specDefs[key] = true
